@@ -1361,6 +1361,18 @@ MUTANTS = [
                 return
 
             self._adjust_process_count()""", """            self._adjust_process_count()""")),
+    M("feeder-close-finaliser-not-stored", ["C05", "C20"], ["R-FEEDER"],
+      (QU, """        self._close = util.Finalize(
+            self,
+            Queue._finalize_close,
+            [self._buffer, self._notempty],
+            exitpriority=10,
+        )""", """        util.Finalize(
+            self,
+            Queue._finalize_close,
+            [self._buffer, self._notempty],
+            exitpriority=10,
+        )""")),
     # ------------------------------------------------------- R-SCN-* (polarity)
     M("scn-wakeup-inverted", ["C01", "C02", "C05"], ["R-SCN-WAKEPRIM"],
       (PE, """    def wakeup(self):
